@@ -627,6 +627,10 @@ theorem step_noOverwrite {okf : Nat} {s s' : State} {a : Action} (h : step okf s
     split at h
     · cases h
     · injection h with h; subst h; exact (keeps_of_apps_eq rfl).noOverwrite
+  | rejected sub =>
+    simp only [step] at h
+    obtain ⟨app, m, _, _, hf⟩ := withApp_some h
+    injection hf with hf; subst hf; exact (keeps_of_apps_eq rfl).noOverwrite
 
 /-! ### (iii) what one consumption writes -/
 
